@@ -699,6 +699,70 @@ func runC16(c *h.Ctx) {
 			}
 		}
 	}
+	// each .decimal(p,s) of a path has its own arguments: several of them in
+	// one execution (chained, one inside a filter and one after it, one on each
+	// side of a comparison) behave as each does alone
+	{
+		args := []string{"", "10,2", "2,0", "6,2", "4,0", "5,1", "3,1", "1,0", "8,3", "2,-1", "38,10"}
+		inputs := []string{"1234.5", "1234.5678", "12.34", "12.3", "99.95", "-7.25", "0.5", "123456.789", "15", "-0.04"}
+		run := func(ptxt string, doc any) *h.Out {
+			p := cachedPath(ptxt)
+			if p == nil {
+				return nil
+			}
+			c.Eval(1)
+			return h.Call("query", p, doc, h.Opts{})
+		}
+		for ai, a := range args {
+			for bi, b := range args {
+				if a == b {
+					continue
+				}
+				idx++
+				if !c.Mine(idx) {
+					continue
+				}
+				_, _ = ai, bi
+				for _, in := range inputs {
+					for _, useNum := range []bool{false, true} {
+						x := h.Decode(in, useNum)
+						cs := h.Case{Kind: "exec", Path: "$.decimal(" + a + ").decimal(" + b + ")", Doc: in, UseNum: useNum}
+						o1 := run("$.decimal("+a+")", x)
+						of := run("$.decimal("+a+").decimal("+b+")", x)
+						if o1 == nil || of == nil || o1.Class == h.Panic || of.Class == h.Panic {
+							continue
+						}
+						want := o1
+						if o1.Class == h.OK && len(o1.Items) == 1 {
+							want = run("$.decimal("+b+")", o1.Items[0])
+						}
+						if want.Class != of.Class || want.Class == h.OK && h.CanonListTyped(want.Items) != h.CanonListTyped(of.Items) {
+							c.Violate("decimal.args", h.F("kind", "two-in-one-execution", "form", "chained"), fmt.Sprintf("Query(%s) on %s = %s; .decimal(%s) gives %s and .decimal(%s) of that gives %s", cs.Path, in, of.Summary(), a, o1.Summary(), b, want.Summary()), cs)
+						} else {
+							c.Held("decimal.args")
+						}
+						// one in a filter, one after it; one on each side of a comparison
+						fa := run("$ ? (@.decimal("+a+") == @.decimal("+a+")).decimal("+b+")", x)
+						ob := run("$.decimal("+b+")", x)
+						oa := run("$.decimal("+a+")", x)
+						if fa != nil && ob != nil && oa != nil && fa.Class != h.Panic {
+							wantClass, wantItems := ob.Class, h.CanonListTyped(ob.Items)
+							if oa.Class != h.OK { // the condition is unknown: nothing passes the filter
+								wantClass, wantItems = h.OK, h.CanonListTyped(nil)
+							}
+							fcs := cs
+							fcs.Path = "$ ? (@.decimal(" + a + ") == @.decimal(" + a + ")).decimal(" + b + ")"
+							if fa.Class != wantClass || fa.Class == h.OK && h.CanonListTyped(fa.Items) != wantItems {
+								c.Violate("decimal.args", h.F("kind", "two-in-one-execution", "form", "filter-then-step"), fmt.Sprintf("Query(%s) on %s = %s; the filter keeps the item iff .decimal(%s) succeeds (%s), and .decimal(%s) of the item is %s", fcs.Path, in, fa.Summary(), a, oa.Summary(), b, ob.Summary()), fcs)
+							} else {
+								c.Held("decimal.args")
+							}
+						}
+					}
+				}
+			}
+		}
+	}
 	// no item, no conversion: the method applied to an empty sequence (a lax
 	// empty array, a missing key) yields the empty sequence whatever its arguments
 	for i, pt := range []string{"$.decimal(0)", "$.decimal(1001,2)", "$.decimal(5,-1001)", "$.nokey.decimal(0)", "$[*].decimal(0,0)", "$.e[*].decimal(-3)", "$ ? (@.nokey.decimal(0) > 1)"} {
